@@ -125,6 +125,17 @@ Neighbors find_neighbors_covertree_impl(RandomAccessIterator begin, RandomAccess
                 continue;
             candidates.push_back(std::make_pair(res[i][j].iter_, callback.distance(res[i][0].iter_, res[i][j].iter_)));
         }
+        if (candidates.size() < static_cast<size_t>(k - 1))
+        {
+            // The tree relies on the triangle inequality. Rounding errors of a kernel-induced distance may
+            // break it badly enough for the query to miss points, scan all of them in this case.
+            candidates.clear();
+            for (RandomAccessIterator around_iter = begin; around_iter != end; ++around_iter)
+            {
+                if (around_iter != res[i][0].iter_)
+                    candidates.push_back(std::make_pair(around_iter, callback.distance(res[i][0].iter_, around_iter)));
+            }
+        }
         const size_t n_nearest = std::min(candidates.size(), static_cast<size_t>(k - 1));
         std::partial_sort(candidates.begin(), candidates.begin() + n_nearest, candidates.end(),
                           distances_comparator<DistanceRecord>());
